@@ -750,6 +750,9 @@ pub struct CacheStats {
     pub writes_unexplored: AtomicU64,
     pub must_explore_calls: AtomicU64,
     pub must_explore_refusals: AtomicU64,
+    /// longest run of consecutive refusals (stale nodes popped in a row)
+    pub refusal_run: AtomicU64,
+    pub max_refusal_run: AtomicU64,
     pub layer_clears: AtomicU64,
     pub clears: AtomicU64,
 }
@@ -769,7 +772,7 @@ impl<C: Cache> Cache for MonCache<C> {
         let r = self.inner.must_explore(subproblem);
         if let Some(s) = &self.stats {
             s.must_explore_calls.fetch_add(1, AO::Relaxed);
-            if !r { s.must_explore_refusals.fetch_add(1, AO::Relaxed); }
+            if !r { s.must_explore_refusals.fetch_add(1, AO::Relaxed); let run = s.refusal_run.fetch_add(1, AO::Relaxed) + 1; s.max_refusal_run.fetch_max(run, AO::Relaxed); } else { s.refusal_run.store(0, AO::Relaxed); }
         }
         r
     }
